@@ -69,6 +69,10 @@ def requeues_several(prev, last):
     here (trace validation, which accepts every order, still judges it)."""
     if prev is None:
         return False
+    # ... likewise the choice among several eligible blocked pullers: it is imposed through
+    # qs.jobs.random.choice; code that picks one by another (equally valid) rule cannot be steered
+    if sum(1 for x in prev["waiters"].values() if x["on"] and not x["box"]) >= 2:
+        return True
     w = last.get("w")
     if last.get("op") not in ("disconnect", "deliver") or w not in prev["running"]:
         return False
@@ -142,7 +146,7 @@ def replay_one(hist, workers=None, clients=None, channels=None, after_step=None,
                     df = diff(h["st"], e["post"])
                     if df:
                         if requeues_several(pv, h["last"]):
-                            return {"ok": True, "steps": steps_done, "skipped": "requeue order"}
+                            return {"ok": True, "steps": steps_done, "skipped": "free choice"}
                         return {"step": steps_done, "op": h["last"], "differs": df, "spec": norm_spec_state(h["st"]),
                                 "real": norm_real_state(e["post"])}
                     pv = h["st"]
@@ -213,7 +217,7 @@ def replay_one(hist, workers=None, clients=None, channels=None, after_step=None,
                 df = diff(h["st"], e["post"])
                 if df:
                     if requeues_several(pprev, h["last"]):
-                        return {"ok": True, "steps": steps_done, "skipped": "requeue order"}
+                        return {"ok": True, "steps": steps_done, "skipped": "free choice"}
                     return {"step": steps_done, "op": h["last"], "differs": df, "spec": norm_spec_state(h["st"]),
                             "real": norm_real_state(e["post"])}
                 steps_done += 1
@@ -284,7 +288,7 @@ def replay_behaviours(ctx, prop, quick):
             agreed += 1
             steps += r["steps"]
             if r.get("skipped"):
-                ctx.cover(replay_cut_short_at_free_requeue_order=1)
+                ctx.cover(replay_cut_short_at_free_choice=1)
             continue
         op = r.get("op", {})
         key = "qs replay differs: op=%s fields=%s" % (op.get("op"), ",".join(r.get("differs", [r.get("problem", "?")])))
